@@ -24,7 +24,13 @@ def gen_item(rng):
     label = rng.choice(['label', 'target', 'y'])
     order = rng.choice([1, 1, 2, 3])
     pool = ['f1', 'feat2', 'BRAND', 'ANDREW', 'x', 'é', 'q9', 'w_w', 'CANDY', 'z z', 'LAND', 'k']
+    # names that contain the label's name as prefix / suffix / infix are ordinary features
+    pool = pool + [label + '_count', label + 'er', 'x' + label, 'my' + label + 'z', label.upper(), label + ' 2']
     names = rng.sample(pool, min(nfeat, len(pool)))
+    if rng.random() < 0.5:
+        extra_n = rng.choice([label + '_count', label + 'er', 'x' + label])
+        if extra_n not in names:
+            names.append(extra_n)
     if order > 1:
         singles = list(names)
         names = []
